@@ -6,6 +6,7 @@ types/request.rs Request::headers.
 Oracle from the statement: deadline(header, default) = the smaller of the two, either may be absent, unparsable == absent.
 Not decided here: ResponseFuture::poll (pin_project; the sleep race), Builder::start wiring.
 """
+import re
 import prelude as P
 
 NAME = 'timeout'
@@ -44,7 +45,12 @@ impl HeaderMap {
     #[verifier::external_body]
     pub fn get(&self, k: &str) -> (r: Option<&String>)
         ensures r is Some <==> self.m@.contains_key(k@), r is Some ==> r->Some_0@ == self.m@[k@] { unimplemented!() }
+    #[verifier::external_body]
+    pub fn insert(&mut self, k: String, v: String) -> (r: Option<String>) ensures final(self).m@ == old(self).m@.insert(k@, v@) { unimplemented!() }
 }
+#[verifier::external_body] pub fn str_into(s: &str) -> (r: String) ensures r@ == s@ { unimplemented!() }       // `<&str>.into()` where a String is wanted
+pub assume_specification<T> [core::option::Option::<Option<T>>::flatten] (o: Option<Option<T>>) -> (r: Option<T>)
+    ensures r == (match o { Some(x) => x, None => None::<T> });
 pub struct Extensions { pub n: Ghost<nat> }
 pub struct Bytes { pub v: Vec<u8> }
 pub struct Response<T> { pub body: T }
@@ -148,11 +154,21 @@ def closure_contract(e):
     e.text = t3
 
 
+def own_mut_self(e):
+    """X9e: `fn f(mut self, ..) { .. self .. }` -> `fn f(self, ..) { let mut self_ = self; .. self_ .. }` (Verus has no `mut self`)"""
+    if re.search(r'\(\s*mut\s+self\b', e.text):
+        head, brace, body = e.text.partition('{')
+        head = re.sub(r'\(\s*mut\s+self\b', '(self', head, count=1)
+        body = re.sub(r'\bself\b', 'self_', body)
+        e.text = head + '{\n        let mut self_ = self;' + body
+        e.log('X9e', '`mut self` rebound as a local (`let mut self_ = self;`), the body refers to it')
+
+
 def build(ctx):
     C = ctx
     C.helper_rewrites = [dict(rule='X5', pattern='std::time::', repl=''), dict(rule='X5', pattern='std::cmp::', repl='cmp::'), dict(rule='X5', pattern='super::', repl='')]
     t = P.HEADER + P.STD_SPECS + P.TIME_STANDIN + STANDINS
-    t += 'pub mod header {\n' + C.item(TYPES, 'mod header :: const TIMEOUT', rewrites=[('X9c', '&str', "&'static str", 1)]) + '}\n'
+    t += C.item(TYPES, 'mod header', rewrites=[('X9c', '&str', "&'static str", None)])
     t += C.item(TYPES, 'enum Version', rewrites=[('X5', 'V1 = 1,', 'V1,', 1)])
     t += C.item(REQ, 'struct RequestHeader')
     t += C.item(REQ, 'struct Request')
@@ -177,6 +193,33 @@ def build(ctx):
         is_u64_text(if duration.ns@ <= u64::MAX as nat { duration.ns@ as u64 } else { u64::MAX }, r), // @OBL duration_to_timeout::saturating_nanos [C11] the header value is the duration in nanoseconds, saturated at u64::MAX
 ''')
 
+    # ---- the caller-facing side of the header (types/request.rs): how a caller SETS the deadline a request carries, and reads it back ----
+    t += 'impl<T> Request<T> {\n'
+    t += C.fn(REQ, 'impl <T> Request<T> :: fn headers_mut', 'Request::headers_mut', ['C11'], ret='r', spec='''
+    ensures
+        *r == old(self).head.headers && final(self).head.headers == *final(r) && final(self).head.route == old(self).head.route && final(self).head.version == old(self).head.version
+            && final(self).head.extensions == old(self).head.extensions && final(self).body == old(self).body, // @OBL Request::headers_mut::only_headers [C11,C02] headers_mut() gives access to the header map and to nothing else of the request
+''')
+    caller_rw = [dict(rule='X5', pattern='std::time::', repl='', optional=True), dict(rule='X5', pattern='crate::middleware::timeout::', repl='', optional=True), dict(rule='X5', pattern=r'super::header::(\w+)\.into\(\)', repl=r'str_into(header::\1)', regex=True, optional=True)]
+    t += C.fn(REQ, 'impl <T> Request<T> :: fn set_timeout', 'Request::set_timeout', ['C11'], rewrites=caller_rw, body_prefix='\n        broadcast use axiom_u64_print_parse;\n', spec='''
+    requires
+        timeout.ns@ <= dmax(),
+    ensures
+        header_deadline(final(self).head.headers) == Some(if timeout.ns@ <= u64::MAX as nat { timeout.ns@ } else { u64::MAX as nat }), // @OBL Request::set_timeout::header_means_that_duration [C11] the deadline a caller sets IS the deadline the header carries: the serving side (and the local outbound middleware) read back exactly that many nanoseconds, saturated at u64::MAX
+        final(self).head.headers.m@.remove(timeout_key()) == old(self).head.headers.m@.remove(timeout_key()) && final(self).head.route == old(self).head.route && final(self).body == old(self).body, // @OBL Request::set_timeout::nothing_else_changes [C11,C02] setting the deadline touches the timeout header and nothing else of the request
+''')
+    t += C.fn(REQ, 'impl <T> Request<T> :: fn with_timeout', 'Request::with_timeout', ['C11'], ret='r', transforms=[own_mut_self], rewrites=caller_rw, spec='''
+    requires
+        timeout.ns@ <= dmax(),
+    ensures
+        header_deadline(r.head.headers) == Some(if timeout.ns@ <= u64::MAX as nat { timeout.ns@ } else { u64::MAX as nat }), // @OBL Request::with_timeout::header_means_that_duration [C11] the builder form sets the same header
+        r.head.headers.m@.remove(timeout_key()) == self.head.headers.m@.remove(timeout_key()) && r.head.route == self.head.route && r.body == self.body, // @OBL Request::with_timeout::nothing_else_changes [C11,C02] and touches nothing else
+''')
+    t += C.fn(REQ, 'impl <T> Request<T> :: fn timeout', 'Request::timeout', ['C11'], ret='r', rewrites=caller_rw, spec='''
+    ensures
+        dur(r) == header_deadline(self.head.headers), // @OBL Request::timeout::reads_the_header [C11] timeout() is the header's meaning: absent or unparsable counts as none, otherwise that many nanoseconds
+''')
+    t += '}\n'
     call_spec = '''
     ensures
         sleep_dur(r.sleep) == deadline(header_deadline(req.head.headers), dur(old(self).default_timeout)), // @OBL %(k)s::Timeout::call::deadline_is_min [C11] the timer is armed with exactly min(local default, timeout header); either may be absent; an unparsable header counts as absent
